@@ -6,12 +6,13 @@ import JRV.Driver.Registry
 import JRV.Driver.Client
 import JRV.Driver.Payload
 import JRV.Driver.Headers
+import JRV.Driver.Wire
 
 namespace JRV.Driver
 
 def components : List (String × (List String → String)) := [
   ("echo", echo), ("norm", norm), ("truthy", truthyC), ("pyeq", pyeqC), ("cmpint", cmpIntC)
-] ++ clientComponents ++ payloadComponents ++ headersComponents
+] ++ clientComponents ++ payloadComponents ++ headersComponents ++ wireComponents
 
 def handle (line : String) : String :=
   match JRV.Codec.tokens line with
